@@ -302,6 +302,7 @@ fn retry_with_larger_budget(sc: &Scenario, extent_before: f64) -> Retry {
     if finite_fault && extent(sc, &st) > extent_before * (1.0 + 1e-9) {
         return Retry::Progressing;
     }
+    crate::run::STUCK.fetch_add(1, std::sync::atomic::Ordering::Relaxed);
     Retry::Stuck
 }
 
